@@ -457,6 +457,19 @@ func unhx(s string) []byte {
 	return b
 }
 
+// takeKeys: what an enumeration handed out belongs to the caller — the caller's copy is kept, the slices received are
+// overwritten at once (an implementation handing out views of its own key storage corrupts itself here)
+func takeKeys(ks [][]byte) [][]byte {
+	out := make([][]byte, len(ks))
+	for i, k := range ks {
+		out[i] = append([]byte{}, k...)
+		for j := range k {
+			k[j] ^= 0x5a
+		}
+	}
+	return out
+}
+
 func b01(b bool) string {
 	if b {
 		return "1"
